@@ -26,7 +26,7 @@ def expected_kinds(b, prog):
     has = lambda *names: any(n in cl for n in names)
     if kind == "select":
         present = {"WITH": has("with"), "SELECT": True, "FROM": has("from"), "JOIN": has("join", "joinlateral") ,
-                   "WHERE": has("andwhere", "condwhere"), "GROUP": has("groupby"), "HAVING": has("andhaving", "condhaving"),
+                   "WHERE": has("andwhere", "condwhere", "andorwhere"), "GROUP": has("groupby"), "HAVING": has("andhaving", "condhaving"),
                    "WINDOW": has("window"), "COMPOUND": has("union"), "ORDER": has("orderby"), "LIMIT": has("limit"),
                    "OFFSET": has("offset"), "LOCK": has("lock")}
         return [k for k in SELECT_ORDER if present[k]]
@@ -37,11 +37,11 @@ def expected_kinds(b, prog):
     if kind == "update":
         frm = has("from")
         present = {"WITH": has("with"), "UPDATE": True, "JOIN": frm and b == "my", "SET": True, "FROM": frm and b != "my",
-                   "WHERE": has("andwhere", "condwhere") and not (b == "my" and frm), "RETURNING": has("returning") and b != "my",
+                   "WHERE": has("andwhere", "condwhere", "andorwhere") and not (b == "my" and frm), "RETURNING": has("returning") and b != "my",
                    "ORDER": has("orderby"), "LIMIT": has("limit")}
         return [k for k in UPDATE_ORDER[b] if present[k]]
     if kind == "delete":
-        present = {"WITH": has("with"), "DELETE": True, "WHERE": has("andwhere", "condwhere"),
+        present = {"WITH": has("with"), "DELETE": True, "WHERE": has("andwhere", "condwhere", "andorwhere"),
                    "RETURNING": has("returning") and b != "my", "ORDER": has("orderby"), "LIMIT": has("limit")}
         return [k for k in DELETE_ORDER[b] if present[k]]
     return None
@@ -335,6 +335,58 @@ def strip_literals(tokline):
     return [t for t in toks]
 
 
+# ---- set operations: operator and parenthesised operand, recursively --------------------------------------------
+SETOP_WORD = {"all": "UNION ALL", "distinct": "UNION", "intersect": "INTERSECT", "except": "EXCEPT"}
+SETSTAT = [0]
+
+
+def given_setops(prog):
+    """the set operations a SELECT program gives, in call order: [(operator, operations of the operand), ..]"""
+    out = []
+    for c in prog[1:]:
+        if isinstance(c, list) and c and c[0] == "union" and len(c) == 3 and isinstance(c[2], list):
+            out.append((SETOP_WORD[c[1]], given_setops(c[2])))
+    return out
+
+
+def rendered_setops(tl):
+    """the set operations read at parenthesis depth 0 of a SELECT: every operator is followed by its operand in
+    parentheses (MySQL / Postgres form); the operand is read the same way.  WindowError if an operand is not
+    parenthesised."""
+    out, depth, i, n = [], 0, 0, len(tl)
+    while i < n:
+        t = tl[i]
+        if t == ("C", "("):
+            depth += 1
+        elif t == ("C", ")"):
+            depth -= 1
+        elif depth == 0 and t[0] == "W" and t[1] in ("UNION", "INTERSECT", "EXCEPT"):
+            op = t[1]
+            i += 1
+            if i < n and tl[i][0] == "W" and tl[i][1] in ("ALL", "DISTINCT"):
+                if tl[i][1] == "ALL":
+                    op += " ALL"
+                i += 1
+            if i >= n or tl[i] != ("C", "("):
+                raise WindowError("the operand of %s is not parenthesised" % op)
+            d, j = 0, i
+            while j < n:
+                if tl[j] == ("C", "("):
+                    d += 1
+                elif tl[j] == ("C", ")"):
+                    d -= 1
+                    if d == 0:
+                        break
+                j += 1
+            if j >= n:
+                raise WindowError("unbalanced parentheses after %s" % op)
+            out.append((op, rendered_setops(tl[i + 1:j])))
+            i = j + 1
+            continue
+        i += 1
+    return out
+
+
 def batch_oracle(ctx, lines, impl):
     verdicts = [None] * len(lines)
     pairs = []
@@ -413,6 +465,17 @@ def batch_oracle(ctx, lines, impl):
                 WINSTAT[0] += len(got_w)
             except WindowError as e:
                 verdicts[i] = "a window definition is not well-formed on %s: %s" % (b, e)
+        # set operations: each operator with its own operand, nested as the program nests them (an operand's own
+        # set operations stay inside the operand's parentheses: a EXCEPT (b UNION (c)) is not a EXCEPT (b) UNION (c))
+        if verdicts[i] is None and prog[0] == "select":
+            want_s = given_setops(prog)
+            try:
+                got_s = rendered_setops(tl)
+            except WindowError as e:
+                got_s = ("unreadable", str(e))
+            if got_s != want_s:
+                verdicts[i] = "the set operations read from the statement are %r, the program gives %r" % (got_s, want_s)
+            SETSTAT[0] += len(want_s)
         # the upsert action: what the history of on-conflict calls asks for is what is written
         if verdicts[i] is None and prog[0] == "insert":
             want_u = given_upsert(prog)
@@ -442,6 +505,7 @@ def batch_oracle(ctx, lines, impl):
     ctx.cov["oracle_statements_checked"] = checked
     ctx.cov["oracle_window_definitions_read"] = WINSTAT[0]
     ctx.cov["oracle_upsert_actions_read"] = UPSTAT[0]
+    ctx.cov["oracle_set_operations_read"] = SETSTAT[0]
     return verdicts
 
 
